@@ -57,6 +57,42 @@ func TestCheck(t *testing.T) {
 		if k := obs["component_duties_with_a_call_that_never_returned"]; k > 0 {
 			r.Inconclusive("component world: in %d duties a Propose / Participate call did not return after its context had ended (not a verdict by itself; what the monitors observed up to then was judged)", k)
 		}
+		// Byzantine member on the wire (consworld/adversary.go): a member that is handed the adversary's
+		// value decided something no leader proposed and no quorum of distinct members committed.
+		advWorlds, advDuties := 5, 5
+		if r.Thorough() {
+			advWorlds, advDuties = 40, 10
+		}
+		rngA := r.Rand(-1, 79)
+		for k := 0; k < advWorlds; k++ {
+			aw, err := consworld.NewAdv(t, b)
+			if err != nil {
+				r.Count("adversary_world_setup_failed", 1)
+				continue
+			}
+			for d := 0; d < advDuties; d++ {
+				play := consworld.AdvPlays[(k*advDuties+d+2)%len(consworld.AdvPlays)]
+				res := aw.RunAdvDuty(b, rngA, play, fmt.Sprintf("adv%d-d%d", k, d))
+				r.Count("adversary_duties", 1)
+				r.Count("adversary_duties/"+play, 1)
+				if res.OthersGotA {
+					r.Count("adversary_duties_in_which_the_other_members_decided_with_the_adversarys_genuine_votes", 1)
+				}
+				if len(res.Decisions[res.Victim]) > 0 {
+					r.Count("adversary_duties_in_which_the_victim_decided", 1)
+				}
+				fs := res.CheckAdvValidity()
+				for _, f := range fs {
+					r.Violation(-1, f.Sig, f.What, map[string]any{"duty": res.Duty.String(), "play": res.Play, "victim": res.Victim, "leader": res.Leader, "decisions": res.Decisions, "adversary_sent": res.Sent})
+				}
+				if len(fs) > 0 {
+					break
+				}
+			}
+			aw.Close()
+		}
+		r.Require("adversary_duties_in_which_the_other_members_decided_with_the_adversarys_genuine_votes", int64(advWorlds*advDuties/2))
+		r.Require("adversary_duties_in_which_the_victim_decided", int64(advWorlds*advDuties/2))
 		r.Require("component_members_decided", int64(worlds*duties*2))
 		r.Require("component_duties_with_a_quorum_of_late_proposals", int64(worlds))
 	}
